@@ -6,7 +6,7 @@ from vlib import common as C, serve as S, reqgen as G, strict_http as H, servech
 
 TRUSTED = []
 ASSUMPTIONS = []
-WITH_MODEL = False
+WITH_MODEL = True
 
 def build(rng, tier):
     batches = []
